@@ -82,6 +82,11 @@ fn check(rep: &mut Report, rules: &[Rule], text: &str, canonical: &str) {
                 // our own canonical spelling is not readable: the printer or the reader is wrong
                 rep.violation(json!({"property":"C07","config":config_name(),"text":text,"canonical":canonical,"after_reading":after(),
                     "expected":"a grammar written in pest's concrete syntax parses","observed":msg}));
+            } else if msg.contains("overflow") || msg.contains("incorrect") {
+                // refused by the reader itself, in every spelling: but the index, count or character it refuses is one
+                // the abstract grammar holds (an i32 slice index, a u32 count, a char), so it has a spelling to be read from
+                rep.violation(json!({"property":"C07","config":config_name(),"text":text,"canonical":canonical,"after_reading":after(),
+                    "expected":"the rules that were printed: every i32 slice index, u32 count and character has a spelling the reader accepts","observed":msg}));
             } else {
                 rep.count("rejected_in_any_spelling");
             }
